@@ -193,12 +193,14 @@ P["C15"] = {
 P["C20"] = {
     "common": {"validate": 6, "ignore_kinds": ["alloc", "unwind"], "runs": [
         {"pattern": "verifHarness_C20_", "label_filter": "C20:"},
-        {"pattern": "verifHarness_C0102_(null(leaf|omit|slice|map)|time(leaf|omit))", "label_filter": "C0[12]:"}]},
+        {"pattern": "verifHarness_C0102_(null(leaf|omit|slice|map)|time(leaf|omit))", "label_filter": "C0[12]:"},
+        {"pattern": "verifHarness_C0102_(nullptr|timeptr)", "label_filter": "C02:"}]},
     "thorough": {"validate": 16, "runs": [
+        {"pattern": "verifHarness_C0102_(nullptr|timeptr)", "label_filter": "C02:"},
         {"pattern": "verifHarness_C20_", "label_filter": "C20:"},
         {"pattern": "verifHarness_C0102_(null(leaf|omit|slice|map)|time(leaf|omit)|x_time)", "label_filter": "C0[12]:"}]},
-    "bounds": "three user-defined custom types (a struct, a named int64, a named []byte) registered through the real Register / RegisterSchema with codecs whose wire form starts with a marker byte; positions: field, pointer, slice element, map value, omitempty field, field of a nested struct and of a pointer-to-struct, each next to a structurally identical UNREGISTERED twin type; both registration orders (marker A then B, B then A: the latest must win); asserted for all values (full-width ints, byte strings 0..2): SchemaForType emits exactly the registered schema at the custom positions and the default mapping for the twin; the reference decoder finds the latest marker encoding exactly at the custom-typed values and the default encoding elsewhere; values round-trip; skipping consumes everything. The library's own registrations (null.Int/Bool/Float/String) are run in the positions field, omitempty, slice element and map value (catalogue harnesses shared with C01/C02)",
-    "outside": "**T and pointers to zero / invalid values (C01 known findings)",
+    "bounds": "three user-defined custom types (a struct, a named int64, a named []byte) registered through the real Register / RegisterSchema with codecs whose wire form starts with a marker byte; positions: field, pointer, slice element, map value, omitempty field, field of a nested struct and of a pointer-to-struct, each next to a structurally identical UNREGISTERED twin type; both registration orders (marker A then B, B then A: the latest must win); asserted for all values (full-width ints, byte strings 0..2): SchemaForType emits exactly the registered schema at the custom positions and the default mapping for the twin; the reference decoder finds the latest marker encoding exactly at the custom-typed values and the default encoding elsewhere; values round-trip; skipping consumes everything. The library's own registrations (null.Int/Bool/Float/String) are run in the positions field, omitempty, slice element and map value (catalogue harnesses shared with C01/C02); the library's own registered types twice each behind pointers in one record (*null.Time, *null.Int, *null.String x 2, every nil pattern): each value comes back in its own storage",
+    "outside": "**T and pointers to zero / invalid values (C01 known findings; the *null.X and *time.Time harnesses are run for their encoding and for engine-level memory safety of the registered codecs' New/Read only)",
     "assumptions": A_CORE,
 }
 
